@@ -339,17 +339,14 @@ def render(shape) -> Rendered:
     # into the tables varies with the shape (ascending / descending), because
     # code that relies on dict insertion order being address order is wrong.
     pending_ann = []
+    pending_cfi = []
     for si, sec in enumerate(shape["sections"]):
         for bi_, blk in enumerate(sec["blocks"]):
             b = r.blocks[si][bi_]
             for disp, table, keykind, value in blk.get("ann", []):
                 pending_ann.append((b, disp, table, keykind, value))
-            if blk.get("cfi"):
-                tab = _auxdata.cfi_directives.get_or_insert(m)
-                for disp, ds in blk["cfi"]:
-                    tab[gtirb.Offset(b, disp)] = [
-                        cfi_directive(d, r.symbols) for d in ds
-                    ]
+            for disp, ds in blk.get("cfi") or []:
+                pending_cfi.append((b, disp, ds))
             if blk.get("align"):
                 _auxdata.alignment.get_or_insert(m)[b] = blk["align"]
     descending = shape.get("ann_order", "auto") == "desc" or (
@@ -358,6 +355,11 @@ def render(shape) -> Rendered:
     )
     if descending:
         pending_ann.reverse()
+        pending_cfi.reverse()
+    if pending_cfi:
+        tab = _auxdata.cfi_directives.get_or_insert(m)
+        for b, disp, ds in pending_cfi:
+            tab[gtirb.Offset(b, disp)] = [cfi_directive(d, r.symbols) for d in ds]
     for b, disp, table, keykind, value in pending_ann:
         tab = getattr(_auxdata, table).get_or_insert(m)
         if keykind == "blk":
